@@ -420,7 +420,7 @@ func (l *Linter) lintSubRoutineDeclaration(decl *ast.SubroutineDeclaration, ctx 
 	return types.NeverType
 }
 
-func (l *Linter) lintPenaltyboxDeclaration(decl *ast.PenaltyboxDeclaration) types.Type {
+func (l *Linter) lintPenaltyboxDeclaration(decl *ast.PenaltyboxDeclaration, ctx *context.Context) types.Type {
 	// validate penaltybox name
 	if !isValidName(decl.Name.Value) {
 		l.Error(InvalidName(decl.Name.GetMeta(), decl.Name.Value, "penaltybox").Match(PENALTYBOX_SYNTAX))
@@ -430,10 +430,15 @@ func (l *Linter) lintPenaltyboxDeclaration(decl *ast.PenaltyboxDeclaration) type
 		l.Error(NonEmptyPenaltyboxBlock(decl.GetMeta(), decl.Name.Value).Match(PENALTYBOX_NONEMPTY_BLOCK))
 	}
 
+	// Check ignored UNUSED_DECLARATION rule and mark as used
+	if pb, ok := ctx.Penaltyboxes[decl.Name.Value]; ok && l.ignore.IsEnable(UNUSED_DECLARATION) {
+		pb.IsUsed = true
+	}
+
 	return types.NeverType
 }
 
-func (l *Linter) lintRatecounterDeclaration(decl *ast.RatecounterDeclaration) types.Type {
+func (l *Linter) lintRatecounterDeclaration(decl *ast.RatecounterDeclaration, ctx *context.Context) types.Type {
 	// validate ratecounter name
 	if !isValidName(decl.Name.Value) {
 		l.Error(InvalidName(decl.Name.GetMeta(), decl.Name.Value, "ratecounter").Match(RATECOUNTER_SYNTAX))
@@ -441,6 +446,11 @@ func (l *Linter) lintRatecounterDeclaration(decl *ast.RatecounterDeclaration) ty
 
 	if len(decl.Block.Statements) > 0 {
 		l.Error(NonEmptyRatecounterBlock(decl.GetMeta(), decl.Name.Value).Match(RATECOUNTER_NONEMPTY_BLOCK))
+	}
+
+	// Check ignored UNUSED_DECLARATION rule and mark as used
+	if rc, ok := ctx.Ratecounters[decl.Name.Value]; ok && l.ignore.IsEnable(UNUSED_DECLARATION) {
+		rc.IsUsed = true
 	}
 
 	return types.NeverType
